@@ -132,6 +132,23 @@ class KexDH:  # pragma: nocover
             self.out.d("RSA certificate found, so skipping nonce.")
             _, _, ptr = KexDH.__get_bytes(hostkey, ptr)  # Read & skip over the nonce.
 
+        # ECDSA keys consist of the curve name and the public point; in a certificate they follow a nonce.
+        if self.__hostkey_type.startswith('ecdsa-sha2-nistp'):
+            if self.__hostkey_type.find('-cert-v0') != -1:
+                _, _, ptr = KexDH.__get_bytes(hostkey, ptr)  # Read & skip over the nonce.
+            _, _, ptr = KexDH.__get_bytes(hostkey, ptr)  # Read & skip over the curve name.
+            hostkey_q, self.__hostkey_n_len, ptr = KexDH.__get_bytes(hostkey, ptr)
+
+            # 0x04 signifies that this is an uncompressed public point (meaning that full X and Y values are provided); the key size is the size of either value.
+            if self.__hostkey_n_len > 0 and hostkey_q[0] == 4:
+                self.__hostkey_n_len = (self.__hostkey_n_len - 1) // 2
+
+            if self.__hostkey_type.find('-cert-v0') != -1:
+                self.__ca_key_type, self.__ca_n_len = self.__parse_ca_key(hostkey, self.__hostkey_type, ptr)
+                self.out.d("KexDH.__parse_ca_key(): CA key type: [%s]; CA key length: %u" % (self.__ca_key_type, self.__ca_n_len))
+
+            return hostkey
+
         # The public key exponent.
         hostkey_e, _, ptr = KexDH.__get_bytes(hostkey, ptr)
         self.__hostkey_e = int(binascii.hexlify(hostkey_e), 16)  # pylint: disable=unused-private-member
